@@ -209,7 +209,7 @@ pub(crate) mod verif_fd1 {
     /// a checksum-only call consumes 4 bytes iff 4 are present (else 0)
     #[cfg(kani)]
     #[kani::proof]
-    #[kani::unwind(3)]
+    #[kani::unwind(6)]
     #[kani::stub(crate::decoding::block_decoder::BlockDecoder::read_block_header, crate::decoding::block_decoder::verif_fd1b::stub_read_block_header)]
     #[kani::stub(crate::decoding::block_decoder::BlockDecoder::decode_block_content, crate::decoding::block_decoder::verif_fd1b::stub_decode_block_content)]
     #[kani::stub(<crate::decoding::frame_decoder::FrameDecoder as crate::io::Read>::read, stub_fd_read)]
@@ -269,5 +269,5 @@ pub(crate) mod verif_fd1 {
 }
 //@end
 //@harness fd1_decode_blocks kind=proof fn=FrameDecoder::decode_blocks props=C10,C06,C05,C03 tier=quick bound="<= 3 blocks per call, block bodies <= 4 bytes, source <= 20 bytes (every truncation point)" timeout=2400
-//@harness fd2_decode_from_to kind=proof fn=FrameDecoder::decode_from_to props=C06,C10,C03 tier=quick bound="one block per call (the last one), block body <= 4 bytes, source <= 12 bytes, plus the checksum-only call" timeout=2400
+//@assume NOT RUN: harness fd2_decode_from_to (decode_from_to accounting) exhausts CBMC memory (14 GB) in every variant tried; it is kept in the file but not registered. The DF1 defect it targets was confirmed natively and repaired.
 //@assume in fd1_/fd2_ harnesses BlockDecoder::read_block_header and ::decode_block_content are contract stubs handing out scripted (symbolic) blocks; their own contracts are H1 and B1; DecodeBuffer::len is a ghost counter in fd1_decode_blocks
